@@ -14,6 +14,7 @@ var (
 	MaxHintLength    = MaxTypeLength + MaxVersionLength + 1
 	MinHintLength    = MinTypeLength + util.MinVersionLength + 1
 	regVersion       = regexp.MustCompile(`\-v\d+`)
+	regFullVersion   = regexp.MustCompile(`\-v\d+\.\d+\.\d+`)
 )
 
 var hintcache util.GCache[string, any]
@@ -41,7 +42,7 @@ func NewHint(t Type, v util.Version) Hint {
 
 // EnsureParseHint tries to parse hint string, but skips to check IsValid().
 func EnsureParseHint(s string) Hint {
-	l := regVersion.FindStringIndex(s)
+	l := findVersionIndex(s)
 	if len(l) < 1 {
 		return Hint{}
 	}
@@ -85,11 +86,23 @@ func parseHint(s string) (Hint, error) {
 
 	ns = strings.TrimSpace(ns)
 
-	if l := regVersion.FindStringIndex(ns); len(l) < 1 {
+	if l := findVersionIndex(ns); len(l) < 1 {
 		return Hint{}, errors.Errorf("empty version, %q", ns)
 	}
 
 	return EnsureParseHint(ns), nil
+}
+
+// findVersionIndex finds where the version starts. Type can not have '.', so
+// the first full version, '-v<major>.<minor>.<patch>' is the version of the
+// printed hint even if Type has '-v<digit>' inside. The shortened version,
+// like '-v1' is looked for only when no full version exists.
+func findVersionIndex(s string) []int {
+	if l := regFullVersion.FindStringIndex(s); len(l) > 0 {
+		return l
+	}
+
+	return regVersion.FindStringIndex(s)
 }
 
 func MustNewHint(s string) Hint {
